@@ -35,10 +35,33 @@ fn gc_probe(vm: &mut Vm<()>) -> Result<Value, ExecutionErrorPayload> {
     Ok(Value::Nil)
 }
 
+/// `host_table(k)`: the host builds an owned table of k entries (string keys; values alternate between
+/// strings, nested tables and integers) and hands it to the VM through `Vm::insert_value` - the host API
+/// allocates many objects in a row while only the host holds them
+fn host_table(vm: &mut Vm<()>, k: i64) -> Result<Value, ExecutionErrorPayload> {
+    use cao_lang::value::{OwnedEntry, OwnedValue};
+    let k = k.clamp(0, 64);
+    let entries: Vec<OwnedEntry> = (0..k)
+        .map(|i| OwnedEntry {
+            key: OwnedValue::String(format!("key{}", i)),
+            value: match i % 3 {
+                0 => OwnedValue::String(format!("value-{}-{}", i, "x".repeat((i % 7) as usize))),
+                1 => OwnedValue::Table(vec![
+                    OwnedEntry { key: OwnedValue::String("in".into()), value: OwnedValue::String(format!("inner{}", i)) },
+                    OwnedEntry { key: OwnedValue::Integer(i), value: OwnedValue::Integer(i * 10) },
+                ]),
+                _ => OwnedValue::Integer(i),
+            },
+        })
+        .collect();
+    vm.insert_value(&OwnedValue::Table(entries))
+}
+
 pub fn new_vm(limit: usize, max_iter: u64) -> Vm<'static, ()> {
     let mut vm = Vm::new(()).unwrap().with_max_iter(max_iter);
     vm.runtime_data.set_memory_limit(limit);
     vm.register_native_function("gc_probe", gc_probe).unwrap();
+    vm.register_native_function("host_table", cao_lang::prelude::into_f1(host_table)).unwrap();
     vm
 }
 
